@@ -46,7 +46,10 @@ def pool_with(stmts):
           and ast.unparse(body[0].iter.func) == pool + ".imap_unordered" and len(body[0].body) == 1 and isinstance(body[0].body[0], ast.Pass))
     if not ok:
         raise Unsupported("pool loop is not `for _ in pool.imap_unordered(...): pass`")
-    func, tasks = body[0].iter.args
+    ia = body[0].iter.args
+    if len(ia) < 2 or len(ia) > 3 or any(k.arg != "chunksize" for k in body[0].iter.keywords):
+        raise Unsupported("imap_unordered arguments")
+    func, tasks = ia[0], ia[1]          # a third argument / keyword is the chunk size: scheduling only (Pool contract: every task runs exactly once)
     tsrc = ast.unparse(tasks)
     return w, kw, ast.unparse(func), tsrc
 
@@ -221,7 +224,7 @@ class FakePool:
     """in-process stand-in for multiprocessing.Pool: runs the real initializer once per 'worker' and the real tasks in a chosen order"""
     order = None
 
-    def __init__(self, processes=None, initializer=None, initargs=()):
+    def __init__(self, processes=None, initializer=None, initargs=(), **kw):
         self.n = processes or 1
         for _ in range(self.n):
             initializer(*initargs)
@@ -232,7 +235,7 @@ class FakePool:
     def __exit__(self, *a):
         return False
 
-    def imap_unordered(self, func, it):
+    def imap_unordered(self, func, it, chunksize=1):
         tasks = list(it)
         order = FakePool.order(len(tasks)) if FakePool.order else range(len(tasks))
         for k in order:
@@ -347,13 +350,27 @@ def run(tier, seed):
                         vs.append(V("%s::%s" % (tag, lab), st, det, SRS))
                 except Unsupported as ex:
                     undec.append("%s: %s" % (tag, ex))
+                except Exception as ex:           # a shape of the code the term interpreter was not written for: tool limit, never a crash
+                    undec.append("%s: term interpreter stopped: %r" % (tag, ex))
     try:
         for lab, st, det in fde_case(ast.parse(report.read_source(FDE))):
             vs.append(V("fdepsd::%s" % lab, st, det, FDE))
     except Unsupported as ex:
         undec.append("fdepsd: %s" % ex)
+    except Exception as ex:
+        undec.append("fdepsd: term interpreter stopped: %r" % (ex,))
     run.add_verdicts(vs)
-    ev, cf = concrete(report.REPO, seed, tier)
+    try:
+        ev, cf = concrete(report.REPO, seed, tier)
+    except Exception as ex:
+        import traceback as _tb
+        fr = _tb.extract_tb(ex.__traceback__)
+        ev = 0
+        if "/pyyeti/" in fr[-1].filename:
+            cf = dict(what="the real code raised %r at %s:%s in the serial-vs-parallel comparison" % (ex, fr[-1].filename.split("/pyyeti/")[-1], fr[-1].lineno))
+        else:
+            cf = None
+            undec.append("bounded schedule exploration could not run (harness limit): %r at %s:%s" % (ex, os.path.basename(fr[-1].filename), fr[-1].lineno))
     run.bounded.append(dict(name="real srs/fdepsd with an in-process pool that runs the real initializer and the real tasks in chosen completion orders (all 6 orders of 3 tasks, "
                                  "1 and 3 workers) vs serial, bitwise; unsorted frequency vectors and 0 Hz; every stype x ic x getresp",
                             evaluations=ev, failures=0 if cf is None else 1, label="bounded schedule exploration (never counted as proved)"))
